@@ -30,6 +30,12 @@ class TextRenderer(BaseRenderer):
         self._qc = qc
         self._qwires = qc.N
         self._cwires = qc.num_cbits
+        self._reset_frames()
+
+    def _reset_frames(self):
+        """
+        Empty rows and layers: the state every call of layout() starts from
+        """
         self._layer_list = [[] for _ in range(self._qwires + self._cwires)]
 
         self._render_strs = {
@@ -393,6 +399,7 @@ class TextRenderer(BaseRenderer):
         """
         Layout the circuit
         """
+        self._reset_frames()
         self._add_wire_labels()
 
         for gate in self._qc.gates:
